@@ -280,11 +280,23 @@ impl SpanningTree {
         split_point: BlockHeight,
         force_rescans: bool,
     ) -> Self {
-        let (l_insert, r_insert) = to_insert
-            .split_at(split_point)
-            .expect("Split point is within the range of to_insert");
-        let left = Box::new(left.insert(l_insert, force_rescans));
-        let right = Box::new(right.insert(r_insert, force_rescans));
+        let (left, right) = match to_insert.split_at(split_point) {
+            Some((l_insert, r_insert)) => (
+                Box::new(left.insert(l_insert, force_rescans)),
+                Box::new(right.insert(r_insert, force_rescans)),
+            ),
+            // The split point lies on a boundary of `to_insert` rather than inside it, which
+            // happens when a child covers an empty range; the whole of `to_insert` then
+            // belongs on one side of the existing partition point.
+            None if split_point <= to_insert.block_range().start => (
+                Box::new(left),
+                Box::new(right.insert(to_insert, force_rescans)),
+            ),
+            None => (
+                Box::new(left.insert(to_insert, force_rescans)),
+                Box::new(right),
+            ),
+        };
         SpanningTree::Parent {
             span: left.span().start..right.span().end,
             left,
